@@ -4,7 +4,7 @@ CONSTANTS NAcc = 1
           MaxVal = 1
           MaxDiffs = {1}
           HistLimits = {2}
-          Policies = {"any"}
+          Policies = {"always"}
           Asyncs = {FALSE}
           IndexOns = {FALSE}
           MaxId = 3
